@@ -131,6 +131,25 @@ def replay(scn):
                     what = A.compare(e, act, free_kinds=True) or None
                 except A.Unprojectable as ex:
                     what = "result not projectable: %s" % ex
+            if what is None and err is None and exp["ok"] and form == "list" and a_abs["dtype"] == "i" and (i["fill"] == -1 or i["fkind"] == "f"):
+                # the fill value given as a narrow NumPy float scalar, on integers that such a type cannot hold: the slices
+                # at labels that existed must still equal the originals exactly
+                BIG = 2 ** 24
+                for ftype in (np.float32, np.float16):
+                    big = a.copy()
+                    big.values[...] += BIG
+                    fv = ftype(kw.get("fill_value", np.nan))
+                    calls += 1
+                    try:
+                        rb = big.reindex_axis(list(newv), axis=a_abs["dims"][d], **dict(kw, fill_value=fv))
+                        expv = [float(fv) if c == i["fill"] else float(A.cell_enc(c, "i") + BIG) for c in exp["val"]["cells"]]
+                        actv = [float(x) for x in rb.values.ravel().tolist()]
+                        if len(expv) != len(actv) or any(not (x == y or (x != x and y != y)) for x, y in zip(expv, actv)):
+                            what = "fill_value=%s(..): cells expected %s got %s" % (ftype.__name__, expv[:8], actv[:8])
+                    except Exception as ex:  # noqa
+                        what = "fill_value=%s(..): raised %s: %s" % (ftype.__name__, type(ex).__name__, str(ex)[:200])
+                    if what:
+                        break
             if what:
                 viol.append(dict(what=what, sig=signature(scn, "%s<-%s%s/%s" % (ak, nk, ("@%d" % off) if off else "", form)), variant="%s<-%s %s off=%d" % (ak, nk, form, off)))
     return dict(violations=viol, calls=calls)
